@@ -376,6 +376,8 @@ func TestC19(t *testing.T) {
 		{[4]string{"((", "))", "(%", "%)"}, "a  (( (1..2) | join ))  b (%if (x == 1)%) y (%endif%)", "a  {{ (1..2) | join }}  b {%if (x == 1)%} y {%endif%}"},
 		{[4]string{"<<", ">>", "<%", "%>"}, "a < b  <<x>>  c > d <%if x > 0%>p<%endif%>", "a < b  {{x}}  c > d {%if x > 0%}p{%endif%}"},
 		{[4]string{"<<", ">>", "<%", "%>"}, "a  <<-1>>  b  << -1 >>  c  <<- -1 ->>  d", "a  {{-1}}  b  {{ -1 }}  c  {{- -1 -}}  d"},
+		{[4]string{"<<", ">>", "<?", "?>"}, "<? capture ok? ?>x<? endcapture ?>[<< ok? >>]<? assign v_? = 2 ?>[<< v_? >>]", "{% capture ok? %}x{% endcapture %}[{{ ok? }}]{% assign v_? = 2 %}[{{ v_? }}]"},
+		{[4]string{"((", "))", "{%", "_}"}, "{% capture v_ _}c{% endcapture _}[(( v_ ))]", "{% capture v_ %}c{% endcapture %}[{{ v_ }}]"},
 		{[4]string{"[[", "]]", "[%", "%]"}, "t  [[a[0] ]]  [ u ]  [%if a[1] == 2%]  v[%endif%]", "t  {{a[0] }}  [ u ]  {%if a[1] == 2%}  v{%endif%}"},
 	} {
 		if env.Mine(i) {
